@@ -7,6 +7,7 @@ ENGINE = {'name': 'relay',
  'check': 'check',
  'imports': ['From L4.model Require Import Relay.'],
  'n_quick': 40,
+ 'shard': 8,
  'n_thorough': 400,
  'timeout': 600,
  'serves': ['C03'],
